@@ -97,10 +97,10 @@ def main():
     ap.add_argument("--workers", type=int, default=10)
     ap.add_argument("--only")
     ap.add_argument("--out", default="/tmp/mutation_audit.jsonl")
-    ap.add_argument("--ops", default="12", help="operator sets to apply: any of 1, 2, 3")
+    ap.add_argument("--ops", default="12", help="operator sets to apply: any of 1, 2, 3, 4, 5")
     a = ap.parse_args()
     muts = []
-    for k, ops in (("1", MS.OPS), ("2", MS.OPS2), ("3", MS.OPS3)):
+    for k, ops in (("1", MS.OPS), ("2", MS.OPS2), ("3", MS.OPS3), ("5", MS.OPS5)):
         if k in a.ops:
             muts += MS.enumerate_mutants("/repo", a.only, ops)
     if "4" in a.ops:
